@@ -1,5 +1,5 @@
 """container kernels (C09)."""
-from vxlib import Inst, CORE_TUS, FMT_STUBS, CTX_STUBS, CONTAINER_STUBS
+from vxlib import Inst, CORE_TUS, FMT_STUBS, CTX_STUBS, CONTAINER_STUBS, EMPTY_DECL_UNWIND
 
 def instances():
     out = []
@@ -10,4 +10,11 @@ def instances():
                             tus=["blocc/tuple_decl.cpp"], defs=["VX_L1=%d" % l1, "VX_L2=%d" % l2], stubs=FMT_STUBS + ["_ZNK4bloc9TupleDecl4Decl9tupleNameB5cxx11Ev"],
                             unwind=8, timeout=300, tier="quick" if quick else "thorough", backends=("z3", "sat"),
                             bounds="tuple structures of %d and %d items over the 6 scalar item types" % (l1, l2), inputs="item types of both structures"))
+    TT = CORE_TUS + ["blocc/member/member_insert.cpp", "blocc/member/member_put.cpp", "blocc/expression_member.cpp"]
+    for yl in (1, 0):
+        out.append(Inst(id="c09.insert.nulltuple.%s" % ("var" if yl else "tmp"), props=["C09", "C01"], harness="h_tables.cpp", entry="c09_insert_null_tuple", tus=TT, defs=["VX_YLVAL=%d" % yl],
+                        stubs=FMT_STUBS + CTX_STUBS + ["_ZN4bloc7ComplexC2EOS0_", "_ZN4bloc7ComplexC2ERKS0_", "_ZN4bloc7ComplexC2EtPv", "_ZN4bloc7ComplexD2Ev"],
+                        unwind=4, timeout=900, quick_also=["C01"], bounds="table of one 1-item tuple; argument a null tuple", inputs="position (int64 / null), tuple item value"))
+    out.append(Inst(id="c09.put.scalar_into_2dim", props=["C09", "C01"], harness="h_tables.cpp", entry="c09_put_scalar_into_2dim", tus=TT, stubs=FMT_STUBS + CTX_STUBS + ["_ZN4bloc7ComplexC2EOS0_", "_ZN4bloc7ComplexC2ERKS0_", "_ZN4bloc7ComplexC2EtPv", "_ZN4bloc7ComplexD2Ev"],
+                    unwind=4, timeout=900, bounds="[[integer]] table with one inner table of one integer", inputs="argument value, null flag, lvalue flag"))
     return out
